@@ -139,6 +139,9 @@ def call_proto(api: str, M: onnx.ModelProto, o: dict, fns=None):
     return type(r).__name__, None
 
 
+LAST: dict = {}  # side channel: what the last IR-entry fold_constants reported
+
+
 def call_ir(api: str, m, o: dict, fns=None):
     """Run the IR entry on the ir.Model m.  Returns (ret_kind, returned_model_or_None)."""
     opt, rw, vc, ir, rep = _mods()
@@ -146,6 +149,7 @@ def call_ir(api: str, m, o: dict, fns=None):
         r = opt.optimize(m, **o)
     elif api == "fold_constants":
         r = opt.fold_constants(m, **o)
+        LAST["fold_modified"] = bool(getattr(r, "modified", True))
         return ("aux" if isinstance(r, ir.passes.PassResult) else type(r).__name__), None
     elif api == "remove_unused_nodes":
         r = opt.remove_unused_nodes(m)
